@@ -280,6 +280,19 @@ def run(tier, seed):
             if not os.path.exists(infile):
                 ck.fail('input deleted although nothing could be written to stdout (pipe without reader, EPIPE)',
                         {'op': 'clean-os', 'case': 'closed-pipe', 'optimise': opt, 'exit': p.returncode, 'stderr': se.decode(errors='replace')[-300:]}, 'os_pipe')
+        # a PEL cut short inside its last section: decoding fails, also when assertions are disabled, so --clean must leave it alone
+        for opt in (False, True):
+            for cut in (len(good) - 1, len(good) - 5, 60):
+                open(infile, 'wb').write(good[:cut])
+                so, se, sx = clirun.run_sub(['-f', infile, '--clean'], optimise=opt)
+                cutdir = clirun.make_dir([('cut.pel', good[:cut])], base=tmp)
+                cutout = clirun.make_dir([], base=tmp)
+                clirun.run_sub(['-p', cutdir, '-j', '-c', '-o', cutout, '-E'], optimise=opt)
+                ck.case(key=('os', 'cut', opt, cut))
+                ck.count('real-OS truncated PEL with --clean%s' % (' under python -O' if opt else ''))
+                if not os.path.exists(infile) or not os.path.exists(os.path.join(cutdir, 'cut.pel')):
+                    ck.fail('a PEL that is cut short (its decoding fails) was deleted by --clean%s' % (' when assertions are disabled (python -O)' if opt else ''),
+                            {'op': 'clean-os', 'case': 'truncated %d of %d bytes' % (cut, len(good)), 'optimise': opt, 'data_hex': good[:cut].hex(), 'stdout': so[:200]}, 'os_truncated')
         # stdout CLOSED before the tool starts (`peltool -f x --clean >&-`): sys.stdout is None, print() delivers nothing to anybody
         for opt in (False, True):
             for hexopt in ([], ['-x']):
